@@ -19,8 +19,10 @@ def cname(hid, k, pub):
 PYNAME = {"m1": "m_one", "m2": "m_two"}       # Python names with an inner underscore (they change under naming conversion)
 
 
-def class_src(hid, k, c, h, attrshadow=False, abstract="") -> str:
-    bases = ", ".join(cname(hid, b, h[b - 1]["pub"]) for b in c["bases"])
+def class_src(hid, k, c, h, attrshadow=False, abstract="", viamodule=False) -> str:
+    bases = ", ".join((f"inhb.{cname(hid, b, h[b - 1]['pub'])}[int]" if viamodule and b == 1 else cname(hid, b, h[b - 1]["pub"])) for b in c["bases"])
+    if viamodule and k == 1:
+        bases = (bases + ", " if bases else "") + "Generic[T_inh]"
     if abstract and c["pub"] and bases:
         bases = f"ABC, {bases}" if abstract == "first" else f"{bases}, ABC"
     L = [f"class {cname(hid, k, c['pub'])}" + (f"({bases})" if bases else "") + ":"]
@@ -51,13 +53,13 @@ def main(v: Verdict) -> None:
             if sc.get("aliased"):
                 inits.append(f"from .{'inhb' if sc['split'] else 'inha'} import {cname(hid, 1, False)} as H{hid}C1Shown")
             for k, c in enumerate(h, 1):
-                src = class_src(hid, k, c, h, sc.get("attrshadow", False), sc.get("abstract", ""))
+                src = class_src(hid, k, c, h, sc.get("attrshadow", False), sc.get("abstract", ""), sc.get("viamodule", False))
                 if sc["split"] and k == 1:
                     b_parts.append(src)
-                    imports.append(f"from {pkg}.inhb import {cname(hid, 1, c['pub'])}")
+                    imports.append(f"from {pkg} import inhb" if sc.get("viamodule") else f"from {pkg}.inhb import {cname(hid, 1, c['pub'])}")
                 else:
                     a_parts.append(src)
-        files = {"__init__.py": "\n".join(inits) + "\n", "inha.py": "from abc import ABC\n" + "\n".join(imports) + "\n\n" + "\n".join(a_parts), "inhb.py": "\n".join(b_parts) or "X = 1\n"}
+        files = {"__init__.py": "\n".join(inits) + "\n", "inha.py": "from abc import ABC\n" + "\n".join(imports) + "\n\n" + "\n".join(a_parts), "inhb.py": "from typing import Generic, TypeVar\n\nT_inh = TypeVar(\"T_inh\")\n\n\n" + ("\n".join(b_parts) or "X = 1\n")}
         return write_pkg(files, pkg)
     # hierarchies whose private ancestor is re-exported under an alias go into packages of their own (300 each): the tool's re-export
     # bookkeeping is quadratic in the number of re-exports
@@ -120,6 +122,8 @@ def main(v: Verdict) -> None:
                     scj["attrshadow"] = True
                 if sc.get("abstract"):
                     scj["abstract"] = sc["abstract"]
+                if sc.get("viamodule"):
+                    scj["viamodule"] = True
                 obs.append({"id": f"H{hid}C{k}" + (":nc" if nc else ""), "sc": scj, "obs": o})
     bad = judge(v, "C17_Trace", obs)
     by_id = {o["id"]: o for o in obs}
@@ -127,7 +131,7 @@ def main(v: Verdict) -> None:
         o = by_id.get(b.get("subject"))
         if o:
             hid = int(re.match(r"H(\d+)C", o["id"]).group(1))
-            b["python"] = "".join(class_src(hid, k, c, o["sc"]["h"], o["sc"].get("attrshadow", False), o["sc"].get("abstract", "")) for k, c in enumerate(o["sc"]["h"], 1))
+            b["python"] = "".join(class_src(hid, k, c, o["sc"]["h"], o["sc"].get("attrshadow", False), o["sc"].get("abstract", ""), o["sc"].get("viamodule", False)) for k, c in enumerate(o["sc"]["h"], 1))
             b["split"] = o["sc"]["split"]
     v.add_bad(bad)
     v.samples = [{"hierarchy": o["sc"], "observed": o["obs"]} for o in obs[:: max(1, len(obs) // 3)]][:3]
